@@ -178,6 +178,11 @@ func (sc *sqlScenario) build(prop string) *core.Scenario {
 				if !sqlSerialOrderExists(sc.Seed, recs, final) {
 					return mk("no-serial-order", "answers and final table cannot be explained by any serial order of the committed transactions:\n  "+strings.ReplaceAll(out, "\n", "/")), out
 				}
+				// nobody is active any more: every index must agree with the table (C07's state, reached here by
+				// concurrent committed and aborted work)
+				if d := indexBattery(db, "t", fin.Rows, sqlKeyDomain(sc.Seed, recs)); d != "" {
+					return mk("index-disagrees-with-table-afterwards", d+"\n  "+strings.ReplaceAll(out, "\n", "/")), "index-mismatch"
+				}
 				return nil, out
 			}
 			h.Cleanup = func() {
@@ -358,4 +363,85 @@ func sqlConcReplay(raw json.RawMessage, prop string) (string, bool) {
 		}
 	}
 	return "scenario not found: " + rp.Scenario, false
+}
+
+// sqlKeyDomain: every key value the seed or a statement of the scenario mentions (rows that no longer exist
+// must not be found through an index either).
+func sqlKeyDomain(seed []*Stmt, recs [][]*txnRecord) []any {
+	seen := map[string]bool{}
+	var out []any
+	add := func(v any) {
+		if v != nil && !seen[fmt.Sprint(v)] {
+			seen[fmt.Sprint(v)] = true
+			out = append(out, v)
+		}
+	}
+	for _, s := range seed {
+		for _, r := range s.Rows {
+			add(r[0])
+		}
+	}
+	for _, rs := range recs {
+		for _, r := range rs {
+			for _, s := range r.stmts {
+				for _, row := range s.Rows {
+					add(row[0])
+				}
+				for _, it := range s.Set {
+					if it.Col == "k" {
+						add(it.Val)
+					}
+				}
+			}
+		}
+	}
+	return out
+}
+
+// indexBattery compares, for table (k INT, v VARCHAR) read back as `final` through the scan path, every
+// point lookup through the index on k (all keys of the domain and of the final table) and on v (all
+// values of the final table) with the rows of `final`. Returns "" or a description of the first mismatch.
+func indexBattery(db *DB, table string, final Rows, keys []any) string {
+	seen := map[string]bool{}
+	for _, k := range keys {
+		seen[fmt.Sprint(k)] = true
+	}
+	for _, r := range final {
+		if !seen[fmt.Sprint(r[0])] {
+			seen[fmt.Sprint(r[0])] = true
+			keys = append(keys, r[0])
+		}
+	}
+	check := func(col string, idx int, val any) string {
+		want := Rows{}
+		for _, r := range final {
+			if c, ok := cmpVal(r[idx], val); ok && c == 0 {
+				want = append(want, r)
+			}
+		}
+		q := fmt.Sprintf("SELECT k, v FROM %s WHERE %s = %s;", table, col, Lit(val))
+		got := db.Auto(q)
+		if got.Fail != nil || got.Aborted || got.Err != "" {
+			return fmt.Sprintf("%s -> fail=%v aborted=%v err=%q (the table, read by a scan, holds %s)", q, got.Fail, got.Aborted, got.Err, want.Short())
+		}
+		if got.Rows.Canon() != want.Canon() {
+			return fmt.Sprintf("%s returns %s, the table (read by a scan) holds %s", q, got.Rows.Short(), want.Short())
+		}
+		return ""
+	}
+	for _, k := range keys {
+		if d := check("k", 0, k); d != "" {
+			return d
+		}
+	}
+	vs := map[string]bool{}
+	for _, r := range final {
+		if s, ok := r[1].(string); ok && !vs[s] && len(s) <= 64 {
+			vs[s] = true
+			if d := check("v", 1, r[1]); d != "" {
+				return d
+			}
+		}
+	}
+	return ""
 }
